@@ -61,45 +61,49 @@ func ItemsEqual(it, with Item) bool {
 			return nil
 		})
 	} else if IsObject(it) {
-		_ = OnObject(it, func(i *Object) error {
-			result = i.Equals(with)
-			return nil
-		})
-		if ActivityTypes.Contains(with.GetType()) {
-			_ = OnActivity(it, func(i *Activity) error {
+		// the comparison specific to the kind of value covers the object core as well: it is tried first, and the plain
+		// object comparison is the fallback (doing both made nested values cost twice as much per level)
+		specific := false
+		wt := with.GetType()
+		if ActivityTypes.Contains(wt) || wt == ActivityType {
+			specific = OnActivity(it, func(i *Activity) error {
 				result = i.Equals(with)
 				return nil
-			})
-		} else if ActorTypes.Contains(with.GetType()) {
-			_ = OnActor(it, func(i *Actor) error {
+			}) == nil
+		} else if ActorTypes.Contains(wt) || wt == ActorType {
+			specific = OnActor(it, func(i *Actor) error {
 				result = i.Equals(with)
 				return nil
-			})
+			}) == nil
 		} else if it.IsCollection() {
-			if it.GetType() == CollectionType {
-				_ = OnCollection(it, func(c *Collection) error {
+			switch it.GetType() {
+			case CollectionType:
+				specific = OnCollection(it, func(c *Collection) error {
 					result = c.Equals(with)
 					return nil
-				})
-			}
-			if it.GetType() == OrderedCollectionType {
-				_ = OnOrderedCollection(it, func(c *OrderedCollection) error {
+				}) == nil
+			case OrderedCollectionType:
+				specific = OnOrderedCollection(it, func(c *OrderedCollection) error {
 					result = c.Equals(with)
 					return nil
-				})
-			}
-			if it.GetType() == CollectionPageType {
-				_ = OnCollectionPage(it, func(c *CollectionPage) error {
+				}) == nil
+			case CollectionPageType:
+				specific = OnCollectionPage(it, func(c *CollectionPage) error {
 					result = c.Equals(with)
 					return nil
-				})
-			}
-			if it.GetType() == OrderedCollectionPageType {
-				_ = OnOrderedCollectionPage(it, func(c *OrderedCollectionPage) error {
+				}) == nil
+			case OrderedCollectionPageType:
+				specific = OnOrderedCollectionPage(it, func(c *OrderedCollectionPage) error {
 					result = c.Equals(with)
 					return nil
-				})
+				}) == nil
 			}
+		}
+		if !specific {
+			_ = OnObject(it, func(i *Object) error {
+				result = i.Equals(with)
+				return nil
+			})
 		}
 	}
 	return result
